@@ -72,7 +72,7 @@ def c03(tier):
                 "against RefStrokes/TextsExact; plus seeded random grids up to 14x8. Non-trivial = the grid "
                 "denotes at least one stroke; events are de-duplicated by input text.")
     sizes = [(3, 2, A1 + [97]), (2, 3, A1 + [97]), (1, 6, A1), (6, 1, A1)]
-    nrandom = 1000
+    nrandom = 6000
     if tier == "thorough":
         sizes += [(2, 4, A1), (4, 2, A1), (1, 8, A1), (8, 1, A1), (3, 3, A1), (3, 3, A1 + [97])]
         nrandom = 100000
@@ -88,6 +88,8 @@ def c03(tier):
     texts = []
     for i in range(nrandom):
         w, h = r.randint(1, 14), r.randint(1, 8)
+        if i % 3 == 0:
+            w, h = r.randint(2, 6), r.randint(4, 8)      # narrow and tall: spans that meet again further down
         dens = r.choice([0.2, 0.4, 0.7])
         alpha = "-|+" if i % 2 == 0 else "-|+" + r.choice(gen.LABELS) + r.choice(gen.LABELS)
         texts.append(gen.random_grid(r, w, h, alpha, dens))
@@ -409,7 +411,20 @@ def c09(tier):
                       {"input": t, "run": info})
     run.samples.append({"input": runs[5][0], "run": runs[5][1]})
     corpus = gen.mixed_corpus(r, n)
-    observe_events(run, corpus, ["C09"], "mixed-corpus")
+    # large structured inputs: many groups open between two pieces of one run
+    big = []
+    for i in range(12 if tier == "quick" else 200):
+        w = r.randint(40, 130)
+        kind = i % 4
+        if kind == 0:
+            big.append("\n".join("|" * w for _ in range(r.randint(2, 5))))
+        elif kind == 1:
+            big.append("\n".join(r.choice(["+-->", "|", "|   "]) for _ in range(r.randint(30, 90))))
+        elif kind == 2:
+            big.append(gen.random_grid(r, w, r.randint(3, 8), "-|+", 0.8))
+        else:
+            big.append("\n".join(("| " * (w // 2)) for _ in range(r.randint(2, 6))) + "\n" + "-" * w)
+    observe_events(run, gen.dedup(corpus + big), ["C09"], "mixed-corpus")
     run.validate()
     run.assumptions = std_assumptions()
     return run.finish()
@@ -1031,6 +1046,30 @@ def c16(tier):
                 D[mid] = row
                 cases.append(("\n".join("".join(x).rstrip() for x in D), "C16tags", "tags",
                               [{"r": mid, "c": c0, "names": [[ord(c) for c in nm]], "inside": 1}]))
+    for i in range(max(10, n // 10)):
+        idx = r.randint(8, 21)
+        D = [list(x) for x in cat[idx]]
+        w = max(len(x) for x in D)
+        nm, nm2 = rand_tagname(r)[:3], rand_tagname(r)
+        tagtxt = "{" + nm + "}"
+        mid = len(D) // 2
+        c0 = (w - len(tagtxt)) // 2
+        row = D[mid] + [" "] * (w - len(D[mid]))
+        if not (all(ch == " " for ch in row[c0:c0 + len(tagtxt)]) and c0 > 1):
+            continue
+        row[c0:c0 + len(tagtxt)] = list(tagtxt)
+        D[mid] = row
+        inner = ["".join(x).ljust(w) for x in D]
+        # the circle sits inside a box that has its own tag on the first interior row
+        bw = w + 4
+        t2 = "{" + nm2 + "}"
+        rows = ["+" + "-" * bw + "+", "| " + t2.ljust(bw - 1) + "|", "|" + " " * bw + "|"]
+        for ln in inner:
+            rows.append("|  " + ln + "  |")
+        rows += ["|" + " " * bw + "|", "+" + "-" * bw + "+"]
+        tags = [{"r": 1, "c": 2, "names": [[ord(c) for c in nm2]], "inside": 1},
+                {"r": 3 + mid, "c": 3 + c0, "names": [[ord(c) for c in nm]], "inside": 1}]
+        cases.append(("\n".join(rows), "C16tags", "tags", tags))
     obs = observe.observe([{"input": c[0], "want_style": True} for c in cases], tag="C16A")
     for (t, pred, key, info), o in zip(cases, obs):
         ev = {"props": [pred], "rows": o["rows"], "doc": o["doc"], key: info}
